@@ -189,8 +189,8 @@ def run(rep, tier, seed):
                 check("hessian", UTPM.extract_hessian(N, f(xh)), hess, d)
                 check("hess_vec", UTPM.extract_hess_vec(N, f(UTPM.init_hess_vec(x, vv))), numpy.dot(hess, v), d)
                 for dd, tens in tensors.items():
-                    if dt is int:
-                        continue
+                    if dt is int or (q and cnt[0] % 3 and dd < max(tensors)):
+                        continue        # (quick tier: the lower tensor orders for every third case - generate_Gamma_and_rays dominates the run time)
                     mi = [tuple(int(a) for a in row) for row in ei.generate_multi_indices(N, dd)]
                     got = UTPM.extract_tensor(N, f(UTPM.init_tensor(dd, x)), as_full_matrix=False)
                     check("tensor d=%d" % dd, got, [tens[m] for m in mi], d)
